@@ -296,7 +296,7 @@ func c11PathsAccount(ctx *vh.Ctx, c *c11Case) {
 // control entries around every group of sibling graphs.  (Sibling sub-graph nodes carry no
 // handlers in this family; the levels that have operations have a state cell of their own.)
 func c11FlattenPaths(l *c11Layout, withRerun bool) (*c11Flattened, []any) {
-	fl := &c11Flattened{start: map[int]int{}, rerunCut: map[int]int{}, end: map[int]int{}, preN: map[int]int{}}
+	fl := &c11Flattened{start: map[int][]int{}, rerunCut: map[int]int{}, end: map[int][]int{}, preN: map[int]int{}}
 	var prog []any
 	emit := func(gi, gid int, op c11Op) {
 		prog = append(prog, c11ProgEnt{L: gi, G: gid, Op: op})
@@ -313,7 +313,7 @@ func c11FlattenPaths(l *c11Layout, withRerun bool) (*c11Flattened, []any) {
 					prog = append(prog, map[string]any{"f": "fork"})
 					inFork = true
 				}
-				fl.start[gid] = len(prog)
+				fl.start[gid] = []int{len(prog)}
 				prog = append(prog, map[string]any{"f": "sib"})
 				for sgi := range l.Graphs {
 					if l.GOwner[sgi] == gid {
@@ -321,14 +321,14 @@ func c11FlattenPaths(l *c11Layout, withRerun bool) (*c11Flattened, []any) {
 					}
 				}
 				prog = append(prog, map[string]any{"f": "endsib", "key": n.Key})
-				fl.end[gid] = len(prog)
+				fl.end[gid] = []int{len(prog)}
 				continue
 			}
 			if inFork {
 				prog = append(prog, map[string]any{"f": "join"})
 				inFork = false
 			}
-			fl.start[gid] = len(prog)
+			fl.start[gid] = []int{len(prog)}
 			pre := func() {
 				if n.Pre != "" {
 					emit(gi, gid, c11Op{O: "stamp", W: "pre", Tag: fmt.Sprintf("p%d:", gid)})
@@ -347,7 +347,7 @@ func c11FlattenPaths(l *c11Layout, withRerun bool) (*c11Flattened, []any) {
 			if n.Post != "" {
 				emit(gi, gid, c11Op{O: "stamp", W: "post", Tag: fmt.Sprintf("q%d:", gid)})
 			}
-			fl.end[gid] = len(prog)
+			fl.end[gid] = []int{len(prog)}
 		}
 	}
 	walk(0)
@@ -488,12 +488,12 @@ func c11PathsCompare(ctx *vh.Ctx, c *c11Case, o *c11CaseObs) error {
 				}
 				anyRerun = true
 			case len(lv.Before) > 0:
-				if g := keyGid(lv.Graph, lv.Before[0]); g >= 0 {
-					p = fl.start[g]
+				if g := keyGid(lv.Graph, lv.Before[0]); g >= 0 && len(fl.start[g]) > 0 {
+					p = fl.start[g][0]
 				}
 			case len(lv.After) > 0:
-				if g := keyGid(lv.Graph, lv.After[0]); g >= 0 {
-					p = fl.end[g]
+				if g := keyGid(lv.Graph, lv.After[0]); g >= 0 && len(fl.end[g]) > 0 {
+					p = fl.end[g][0]
 				}
 			}
 			if p < 0 {
